@@ -40,6 +40,8 @@ FACTORS = [
     ("c_d", ["c_d"]), ("{c_d * 2}", ["c_d"]), ("I(`c d` - c_d)", ["c d", "c_d"]),
     # a categorical column with a single observed level (emits no column next to an intercept, but is still evaluated)
     ("K", ["K"]), ("C(K)", ["K"]),
+    # variables that only appear as the value of a keyword argument
+    ("np.clip(a, a_min=b, a_max=e)", ["a", "b", "e"]), ("f2(b, y=e)", ["b", "e"]),
     ("f3(a)(e)", ["a", "e"]), ("{np.stack([b, e], axis=1)[:, 0]}", ["b", "e"]), ("I(f3(b)(a) - e)", ["a", "b", "e"]),
 ]
 METHOD_FACTORS = [("{a.clip(0)}", ["a"]), ("{a.sum() * b}", ["a", "b"]), ("I(b.values)", ["b"]), ("{(a + b).abs()}", ["a", "b"])]
@@ -78,6 +80,10 @@ def check_required(case) -> Outcome:
     if case["interaction"] and len(facs) >= 2:
         rhs += f" + {facs[0][0]}:{facs[1][0]}"
     s = rhs
+    if case.get("multipart") and len(facs) >= 2 and not case["lhs"]:
+        # the same factors spread over two parts of a multi-part formula
+        s = f"{facs[0][0]} | " + " + ".join(dict.fromkeys(f_[0] for f_ in facs[1:]))
+        out.label("multipart")
     if case["lhs"]:
         s = f"{['y', 'log(y)', 'y + a'][case['lhs'] % 3]} ~ {rhs}"
         exp |= {"y"} | ({"a"} if case["lhs"] % 3 == 2 else set())
@@ -138,7 +144,11 @@ def check_required(case) -> Outcome:
                 out.fail("variables-after-copy", f"{s!r}: {how} of the {what}: required {sorted(R2)} vs {sorted(R1)}; by source {by2} vs {by1}", **feat, how=how)
     # on the full frame the result is the same as on the restricted one
     mm2 = f.get_model_matrix(df, context=CONTEXT)
-    for a_, b_ in (((mm.lhs, mm2.lhs), (mm.rhs, mm2.rhs)) if case["lhs"] else ((mm, mm2),)):
+    if hasattr(mm, "_flatten") and not case["lhs"]:
+        pairs_ = tuple(zip(mm._flatten(), mm2._flatten()))
+    else:
+        pairs_ = ((mm.lhs, mm2.lhs), (mm.rhs, mm2.rhs)) if case["lhs"] else ((mm, mm2),)
+    for a_, b_ in pairs_:
         if list(a_.columns) != list(b_.columns) or not np.allclose(np.asarray(a_, dtype=float), np.asarray(b_, dtype=float), equal_nan=True):
             out.fail("extra-columns-change-result", f"{s!r}", **feat)
     return out
@@ -151,6 +161,7 @@ def gen_required():
             "interaction": st.booleans(),
             "lhs": st.sampled_from([0, 0, 1, 2, 3]),
             "methods": st.sampled_from([False, False, False, True]),
+            "multipart": st.sampled_from([False, False, True]),
         }
     )
 
